@@ -1617,21 +1617,24 @@ class ModelBuilder:
                     if start_date:
                         # Parse duration to compute end date
                         match = re.match(r"(\d+(?:\.\d+)?)\s*([hdwmymin]+)", str(duration_str))
-                        if match:
-                            num = float(match.group(1))
-                            unit = match.group(2)
-                            if unit == "h":
-                                delta = timedelta(hours=num)
-                            elif unit == "min":
-                                delta = timedelta(minutes=num)
-                            elif unit == "d":
-                                delta = timedelta(days=num)
+                        try:
+                            if match:
+                                num = float(match.group(1))
+                                unit = match.group(2)
+                                if unit == "h":
+                                    delta = timedelta(hours=num)
+                                elif unit == "min":
+                                    delta = timedelta(minutes=num)
+                                elif unit == "d":
+                                    delta = timedelta(days=num)
+                                else:
+                                    delta = timedelta(hours=num)
                             else:
-                                delta = timedelta(hours=num)
-                        else:
-                            delta = timedelta(hours=0)
+                                delta = timedelta(hours=0)
 
-                        end_date = start_date + delta
+                            end_date = start_date + delta
+                        except OverflowError:
+                            raise ValueError(f"booking duration '{duration_str}' is out of range") from None
                         interval = TimeInterval(start_date, end_date)
                         # Use special type to mark as booking (treated as unavailable)
                         type_idx = Leave.Types.get("special", 3)
